@@ -8,6 +8,18 @@ CLAIMED = {
    text="TLC checks on all 7,462 classes that the closed-form class number equals the position in the order defined by the rules of poker, evaluates the best class of every one of the 49,205 rank keys and 4,719 flush keys, checks the flush scan for all 4^7 suit orders and the key abstraction on every 7-subset of reduced decks. Binding: concrete hands for every key plus random hands and comparison pairs are evaluated by the real code and validated by TLC from raw card ids (best of 21 subsets); the real evaluator is run on all 133,784,560 sets in sampled presentation orders against the table TLC exported. Exhaustive over sets and keys, sampled over the 7! orders per set.",
    note="Trusted: Poker.tla's reading of the rules (anchored by closed form = order-based definition and by the published 7-card category frequencies, both re-checked), the harness projection, TLC. Orders per set are sampled (16 quick / 128 thorough of 5040).",
    technique="TLA+ rules-of-poker spec model-checked with TLC; trace validation per abstract key; exhaustive sweep against the TLC-exported table", ref="DESIGN.md 5/C01"),
+ "C02": dict(
+   text="TLC checks that the implementation-shaped odometer model (FlopOdometer) refines the property-level enumeration (FlopEnum: every legal deal of every position exactly once, positions in order, nothing else), terminates and never panics, exhaustively on a small-scope family embedded in the real deck's tail window (745k states quick). Binding: the same family and randomised real-size configurations (1-4 players, overlapping dyadic-weighted ranges, windows at starts/rollovers/end, complete runs, ranges of 255..1326 combos) are drained on the real evaluator and every yield is validated by TLC as a FlopEnum step, with the count of each completed position checked against the number of legal deals.",
+   note="Trusted: FlopEnum's reading of 'legal deal', the harness projection (card ids, exact dyadic decomposition of the probability), TLC. Order of deals inside one position is left open. Sampled at real size, exhaustive only on the small-scope family.",
+   technique="TLA+ refinement FlopOdometer => FlopEnum with TLC; sequential trace validation of real runs against FlopEnum", ref="DESIGN.md 5/C02"),
+ "C03": dict(
+   text="TLC checks the single-pass winner computation against the arg-min definition for every class vector of up to 6 players over 4 classes (all two-way and multi-way tie patterns) at every step. Binding: Showdown::new on random boards with 1-10 players, dense-tie rank bands, board-plays-for-everyone, constructed k-way ties and board collisions; TLC recomputes every strength from raw cards and checks order, own seven cards, flags = exactly the strongest, winner_len, echoed probability, None on board collision.",
+   note="Trusted: Poker.tla (checked by C01), harness projection, TLC. Randomised at real size; tie patterns exhaustive at design level.",
+   technique="TLA+ showdown spec model-checked with TLC; trace validation of Showdown::new", ref="DESIGN.md 5/C03"),
+ "C08": dict(
+   text="TLC checks NoPanic, a re-entry depth bound and termination (liveness under weak fairness, no state constraint) of the odometer model on the small-scope family incl. empty ranges. Binding: configurations (empty ranges, sizes 1..1326 around the 256/512 boundaries, a one-combo range blocked for a whole turn beside 250/1326 combos, everything blocked, 3-4 players, random wide ranges) are drained in child processes on a 2 MiB thread in a dev (overflow checks) and a release build; TLC validates outcome = ok, count = number of legal deals, None sticky.",
+   note="Trusted: the child's exit path as the observation of panics/stack exhaustion; stack bytes are not modelled. Inputs sampled.",
+   technique="TLA+ odometer model (invariants + liveness) with TLC; trace validation of child-process drains in two build profiles", ref="DESIGN.md 5/C08"),
  "C07": dict(
    text="Category boundaries of the class numbering are derived from the rules by TLC (MCPoker); hand_type() of concrete hands for every key - hence every one of the 4,824 reachable classes including the first and last of each category - is validated by TLC against the category of Eval7(cards), and hand_type() is compared on all 133,784,560 sets with the TLC-exported categories. Exhaustive.",
    note="Trusted: Poker.tla, harness projection (category compared through its Debug name), TLC.",
